@@ -26,7 +26,7 @@ Inductive lev :=
 | PReapCreate   (* block_on: a child exited, no cheat byte: create_tokens(1); if has_token release_except_mine *)
 | PReapEat      (* block_on: a child exited, a cheat byte was read *)
 | PRead         (* block_on: token byte read -- only attempted while my = 0 *)
-| PCheat        (* ensure_token_or_cheat: only when idle (no children) and holding no token *)
+| PCheat        (* ensure_token_or_cheat: only when idle (no children) and holding no token and owing no cheat *)
 | PWaitAll      (* AllJobsDone::poll: release down to one; give up the last one iff children remain *)
 | PReleaseMine  (* lock-wait loop, reached only after ensure_token: assert my >= 1; release(1) *)
 | PExit.        (* force_return_tokens with no children left (builder::run took a token back first) *)
@@ -45,6 +45,10 @@ Definition pstep (e : lev) (b : book) : option book :=
       if kids b <? 1 then Some b else Some {| my := my b; ch := ch b; kids := kids b - 1 |}
   | PRead => if Z.eqb (my b) 0 then Some {| my := 1; ch := ch b; kids := kids b |} else Some b
   | PCheat =>
+      (* the code's tests: no token, no children, and no unpaid cheat (fix F81: a
+         process whose cheated token went to a job that was settled by a cheat byte
+         of its own owes a real token and waits for one instead of cheating again;
+         before the fix the guard on [ch] did not exist in the code) *)
       if Z.eqb (my b) 0 && Z.eqb (kids b) 0 && Z.eqb (ch b) 0
       then Some {| my := 1; ch := 1; kids := kids b |} else Some b
   | PWaitAll =>
